@@ -98,15 +98,21 @@ func (p *G1Elt) Data() ([]byte, error) {
 
 func (p *G1Elt) Add(a, b kyber.Point) kyber.Point {
 	aa, bb := a.(*G1Elt), b.(*G1Elt)
-	p.inner.Set(&aa.inner)
-	p.inner.AddAssign(&bb.inner)
+	// compute in a temporary: the receiver may also be the second operand
+	var r bls12381.G1Jac
+	r.Set(&aa.inner)
+	r.AddAssign(&bb.inner)
+	p.inner.Set(&r)
 	return p
 }
 
 func (p *G1Elt) Sub(a, b kyber.Point) kyber.Point {
 	aa, bb := a.(*G1Elt), b.(*G1Elt)
-	p.inner.Set(&aa.inner)
-	p.inner.SubAssign(&bb.inner)
+	// compute in a temporary: the receiver may also be the second operand
+	var r bls12381.G1Jac
+	r.Set(&aa.inner)
+	r.SubAssign(&bb.inner)
+	p.inner.Set(&r)
 	return p
 }
 
